@@ -42,7 +42,7 @@ class ManualEvent {
    */
   void wait() {
     std::unique_lock<std::mutex> lock(mutex_);
-    if (!signaled_) {
+    while (!signaled_) {
       condition_variable_.wait(lock);
     }
   }
